@@ -90,6 +90,7 @@ func (t *treePipeline) outputProgrammably(w io.Writer, root *Node, cfg *config) 
 	rootStream := make(chan *Node)
 	go func() {
 		defer close(rootStream)
+		verifPoint("feed.send")
 		rootStream <- root
 	}()
 	growStream, errcg := t.grower.grow(ctx, rootStream)
@@ -121,6 +122,7 @@ func (t *treePipeline) mkdirProgrammably(root *Node, cfg *config) error {
 	rootStream := make(chan *Node)
 	go func() {
 		defer close(rootStream)
+		verifPoint("feed.send")
 		rootStream <- root
 	}()
 	t.grower.enableValidation()
@@ -155,6 +157,7 @@ func (t *treePipeline) verifyProgrammably(root *Node, cfg *config) error {
 	rootStream := make(chan *Node)
 	go func() {
 		defer close(rootStream)
+		verifPoint("feed.send")
 		rootStream <- root
 	}()
 	t.grower.enableValidation()
@@ -183,6 +186,7 @@ func (t *treePipeline) walkProgrammably(root *Node, callback func(*WalkerNode) e
 	rootStream := make(chan *Node)
 	go func() {
 		defer close(rootStream)
+		verifPoint("feed.send")
 		rootStream <- root
 	}()
 	growStream, errcg := t.grower.grow(ctx, rootStream)
@@ -225,10 +229,12 @@ type walkerPipeline interface {
 
 // パイプラインの全ステージで最初のエラーを返却
 func (*treePipeline) handlePipelineErr(ctx context.Context, echs ...<-chan error) error {
+	verifPoint("herr.start")
 	eg, ectx := errgroup.WithContext(ctx)
 	for i := range echs {
 		i := i
 		eg.Go(func() error {
+			verifPoint("herr.reader")
 			select {
 			case err, ok := <-echs[i]:
 				if !ok {
